@@ -300,8 +300,8 @@ Proof.
   { intros j Hj L. destruct I2 as [_ _ _ _ _ _ Ij _ _ _ _ _ _]. rewrite Forall_forall in Ij.
     destruct (Ij j Hj) as (_ & _ & _ & _ & J5). apply (J5 _ u L Hu eq_refl). }
   destruct (inv_advance cfg (u_end u) s2 I2 M2' HD) as (I3 & M3 & H3a & H3b & ST & RP).
-  assert (P1 : d_bit (x_parser_bs s2) <= d_bit (u_end u)) by (rewrite PB2; fold pb; lia).
-  assert (P2 : x_next s2 <= d_bit (u_end u)) by (rewrite NX2; lia).
+  assert (P1 : d_bit (x_parser_bs s2) <= d_bit (u_end u)) by (rewrite PB2; fold pb; rewrite <- FB; exact Ob).
+  assert (P2 : x_next s2 <= d_bit (u_end u)) by (rewrite NX2, <- FB; exact Ob).
   destruct (ownp_advance cfg (u_end u) s2 H0 [] CA I2 M2' HD Oe PD2 P1 P2
               (fun j0 (X : In j0 []) => match X with end) (fun j0 id j (X : In j0 []) => match X with end) OW2) as (OW3 & _).
   simpl app in OW3.
@@ -323,7 +323,7 @@ Proof.
   destruct (u_complete u) eqn:UC.
   - (* the candidate has been retrieved already: its line owns the new head *)
     assert (LN : la s3 pb 0).
-    { apply LA3. destruct (ORB2 u Hu Qi UC) as [L|L]; [rewrite <- FB; exact L|lia]. }
+    { apply LA3. destruct (ORB2 u Hu Qi UC) as [L|L]; [rewrite <- FB; exact L|rewrite FB in L; exact (False_ind _ (N.lt_irrefl _ L))]. }
     clearbody s3.
     match goal with |- own ?r => set (st' := r) end.
     assert (LA : forall b k, la st' b k <-> la s3 b k) by (intros; apply la_ext; subst st'; unfold estage, give_unit; xs; reflexivity).
@@ -356,11 +356,11 @@ Proof.
     { intros j Hj L. destruct (JOK j Hj L) as (_ & JC'). specialize (JC' eq_refl).
       unfold all_jobs in *. rewrite R3. subst s3. rewrite ER. apply in_app_or in Hj. apply in_or_app. destruct Hj as [Hj|Hj]; auto. left.
       destruct (adv_retr_part (length (x_retr_q s2)) (x_head_offs (adv_input (d_off (u_end u)) (set_parser_bs (u_end u) s2))) (x_retr_q s2) j Hj) as [P|P]; auto.
-      exfalso. fold dk in P. destruct (DD j P) as [Q1 _]. rewrite <- EH in Q1. rewrite <- JC' in Q1. lia. }
+      exfalso. fold dk in P. destruct (DD j P) as [Q1 _]. rewrite <- EH in Q1. rewrite <- JC' in Q1. exact (N.lt_irrefl _ (N.lt_le_trans _ _ _ Q1 H3b)). }
     assert (UIN : In u (x_unords s3)).
     { subst s3. rewrite EU. apply drop_links_other; auto. intros j Hj L.
       destruct (DD j Hj) as [Q1 Q2]. assert (JA' : In j (all_jobs s2)) by (unfold all_jobs; apply in_or_app; auto).
-      destruct (JOK j JA' L) as (_ & JC'). specialize (JC' eq_refl). rewrite <- EH in Q1. rewrite <- JC' in Q1. lia. }
+      destruct (JOK j JA' L) as (_ & JC'). specialize (JC' eq_refl). rewrite <- EH in Q1. rewrite <- JC' in Q1. exact (N.lt_irrefl _ (N.lt_le_trans _ _ _ Q1 H3b)). }
     clearbody s3.
     match goal with |- own ?r => set (st' := r) end.
     assert (LA : forall b k, la st' b k <-> la s3 b k) by (intros; apply la_ext; subst st'; unfold estage, give_unit; xs; reflexivity).
@@ -386,7 +386,7 @@ Proof.
       * unfold links in J1. apply optN_eqb_eq in J1. destruct (JOK j (AJ3 j Hj) J1) as (JB' & JC'). specialize (JC' eq_refl).
         replace (x_next st') with pb by (subst st'; unfold give_unit; xs; auto).
         replace (x_parser_bs st') with (u_end u) by (subst st'; unfold give_unit; xs; auto).
-        rewrite <- JB', <- JC'. split; [exact FB|lia].
+        rewrite <- JB', <- JC'. split; [exact FB|apply N.le_refl].
     + intros v Hv Cv. apply D; auto.
     + intros v Hv Qv Cv. replace (x_parser_bs st') with (x_parser_bs s3) by (subst st'; unfold give_unit; xs; auto).
       destruct (E v (UOLD v Hv (or_intror Qv)) Qv Cv) as [L|L]; [left; apply LA; auto|right; auto].
